@@ -90,6 +90,15 @@ def dvTest : DV → DOp → Bool
   | .flt q, .ltf r => q < r
   | .flt q, .lef r => q ≤ r
   | .flt q, .eq s => parseQuarter s == some q
+  -- the ordering operators compare any numeric value, integer or float, by value (`cmp_float_int`); `q` is in quarters
+  | .flt q, .gt n => q > 4 * n
+  | .flt q, .ge n => q ≥ 4 * n
+  | .flt q, .lt n => q < 4 * n
+  | .flt q, .le n => q ≤ 4 * n
+  | .int n, .gtf r => 4 * n > r
+  | .int n, .gef r => 4 * n ≥ r
+  | .int n, .ltf r => 4 * n < r
+  | .int n, .lef r => 4 * n ≤ r
   | .dt t, .dte u => t == u
   | .dt t, .dta u => t > u
   | .dt t, .dtb u => t < u
